@@ -497,6 +497,7 @@ class Interp:
         self.hooks = hooks
         self.self_names = set(self_names)
         self.budget = budget
+        self.module_funcs: Dict[str, ast.AST] = {}   # module-level pure helper functions the interpreted code may call by bare name
 
     # -- functions
     def call_function(self, func: ast.AST, args: Sequence[object], outer: Optional[dict] = None, bind_self: bool = False):
@@ -703,6 +704,14 @@ class Interp:
             if kwargs:
                 raise EvalUnsupported("kwargs to method")
             return self.call_function(self.methods[name[5:]], args, outer=None, bind_self=True)
+        if isinstance(e.func, ast.Name) and e.func.id in self.module_funcs and not kwargs:
+            shadow = None
+            try:
+                shadow = self.lookup(e.func.id, env)
+            except EvalUnsupported:
+                pass
+            if shadow is None:
+                return self.call_function(self.module_funcs[e.func.id], args, outer=None)
         if name in _BUILTINS and not kwargs:
             if not all(isinstance(a, (int, float)) for a in args):
                 raise EvalUnsupported("builtin on non-number")
